@@ -12,6 +12,11 @@ import (
 // runSteps runs an explicit list of messages against a fresh real server (virtual clock),
 // emitting `cfg` / `rx` operations and feeding the monitor. Returns the observed answers.
 func runSteps(t *testing.T, s *Stream, c *SrvConf, steps []scriptStep, tag string) []Obs {
+	return runStepsKeep(t, s, c, steps, tag, nil)
+}
+
+// runStepsKeep: like runSteps; `more`, if given, is asked once for follow-up steps after the first batch.
+func runStepsKeep(t *testing.T, s *Stream, c *SrvConf, steps []scriptStep, tag string, more func([]Obs) []scriptStep) []Obs {
 	env, err := StartServer(c)
 	t0 := time.Now().UnixNano()
 	cfgLine := c.Line(t0)
@@ -19,14 +24,15 @@ func runSteps(t *testing.T, s *Stream, c *SrvConf, steps []scriptStep, tag strin
 		s.Op(cfgLine, "err:"+strings.ReplaceAll(err.Error(), " ", "_"), false)
 		return nil
 	}
-	s.Op(cfgLine, "ok", false)
+	s.Op(cfgLine, "ok", true)
 	synctest.Wait()
 	mon := NewSrvMonitor(c, s, cfgLine)
 	mon.respTable = env.Resp
 	df, dt := c.DynRange()
 	settle := time.Duration(60+(int64(dt-df)+2)*650) * time.Millisecond
 	var out []Obs
-	for _, st := range steps {
+	for i := 0; i < len(steps); i++ {
+		st := steps[i]
 		time.Sleep(st.Gap)
 		frame := st.Raw
 		if frame == nil {
@@ -45,6 +51,10 @@ func runSteps(t *testing.T, s *Stream, c *SrvConf, steps []scriptStep, tag strin
 		s.Count(tag + "/" + st.Kind + "/" + strings.SplitN(ans, " ", 2)[0])
 		mon.Step(trx, frame, obs, op)
 		out = append(out, obs)
+		if i == len(steps)-1 && more != nil {
+			steps = append(steps, more(out)...)
+			more = nil
+		}
 	}
 	env.Stop()
 	synctest.Wait()
